@@ -52,10 +52,20 @@ def rankUnits (cfg : Cfg) : RankState → Except Err (List ((PathId × Leaf) × 
 def flat (us : List ((PathId × Leaf) × List (WReq UnitId × Bytes))) : List (WReq UnitId × Bytes) :=
   (us.map (·.2)).flatten
 
+/-- insert before the first element whose path is not smaller (stable insertion) -/
+def insertByPath (x : WReq UnitId × Bytes) : List (WReq UnitId × Bytes) → List (WReq UnitId × Bytes)
+  | [] => [x]
+  | y :: l => if x.1.path.1 ≤ y.1.path.1 then x :: y :: l else y :: insertByPath x l
+
+/-- stable sort on the path id (structural, so that concrete jobs evaluate in the kernel) -/
+def sortByPath : List (WReq UnitId × Bytes) → List (WReq UnitId × Bytes)
+  | [] => []
+  | x :: l => insertByPath x (sortByPath l)
+
 /-- the rank's share of the replicated units, `sorted((logical_path, write_req_idx))`: units of one path are
 already in chunk order, so a stable sort on the path is that sort -/
 def repKept (j : Job) (r : Nat) (all : List (WReq UnitId × Bytes)) : List (WReq UnitId × Bytes) :=
-  (all.filter (fun x => j.rep x.1.path.1 && j.owner x.1.path == r)).mergeSort (fun a b => a.1.path.1 ≤ b.1.path.1)
+  sortByPath (all.filter (fun x => j.rep x.1.path.1 && j.owner x.1.path == r))
 
 def privKept (j : Job) (all : List (WReq UnitId × Bytes)) : List (WReq UnitId × Bytes) :=
   all.filter (fun x => !j.rep x.1.path.1)
